@@ -716,7 +716,7 @@ def emitSweep (emit : String → IO Unit) (full : Bool) : IO Unit := do
       for p in ps do
         for c in cursors do
           emit s!"{p} {hx} {c}"
-        if full then
+        if full && !(p.contains '@') then     -- a site that is already framed is not framed twice (the harness has no `@@`)
           emit s!"@{p} {hx} 0"
           -- the view ends right after the swept byte; the rest of the token lies behind it
           emit s!"v0-{pre.length + 1}@{p} {hx} 0"
